@@ -16,6 +16,7 @@ import (
 	"pgregory.net/rapid"
 	"verifharness/ref/fsx"
 	"verifharness/ref/gf16"
+	"verifharness/ref/par2ref"
 	"verifharness/ref/run"
 )
 
@@ -28,6 +29,7 @@ type Case struct {
 	Len     int    `json:"len"`
 	G       int    `json:"g"`
 	Procs   int    `json:"procs"`
+	Odd     bool   `json:"odd,omitempty"`  // the input shards start at odd addresses (sub-slices of larger buffers)
 	Topo    []int  `json:"topo,omitempty"` // api: reported CPU topology {physical cores, threads per core} while the case runs (both >= 1)
 	MissD   []int  `json:"miss_d,omitempty"`
 	KeepPar []int  `json:"keep_p,omitempty"` // if set: only these parity shards are supplied to ReconstructData
@@ -143,6 +145,9 @@ func check(c Case) (string, int) {
 			cpuid.CPU.PhysicalCores, cpuid.CPU.ThreadsPerCore, cpuid.CPU.LogicalCores = c.Topo[0], c.Topo[1], c.Topo[0]*c.Topo[1]
 			defer func() { cpuid.CPU.PhysicalCores, cpuid.CPU.ThreadsPerCore, cpuid.CPU.LogicalCores = oldP, oldT, oldL }()
 		}
+		if c.Coder == "badsurplus" {
+			return checkBadSurplus(c), 2
+		}
 		return checkAPI(c), 2
 	}
 	s := c.Seed | 1
@@ -150,6 +155,10 @@ func check(c Case) (string, int) {
 	orig := make([][]byte, c.D)
 	for j := range data {
 		data[j] = make([]byte, c.Len)
+		if c.Odd {
+			// a slice found at an odd byte offset of a larger buffer (as the decoder hands over slices located in a shifted file)
+			data[j] = make([]byte, c.Len+17)[1 : 1+c.Len : 1+c.Len]
+		}
 		for k := range data[j] {
 			data[j][k] = byte(xs(&s) >> 9)
 		}
@@ -202,6 +211,11 @@ func check(c Case) (string, int) {
 	for j := range data {
 		if !miss[j] {
 			work[j] = data[j]
+		}
+	}
+	if c.Odd {
+		for i := range par {
+			par[i] = append(make([]byte, 1, len(par[i])+1), par[i]...)[1:]
 		}
 	}
 	parCopy := make([][]byte, len(par))
@@ -332,6 +346,94 @@ func checkAPI(c Case) string {
 			}
 		} else if err == nil {
 			return "Repair succeeded beyond capacity"
+		}
+	}
+	return ""
+}
+
+// checkBadSurplus: a repair that has to fail (DoubleCheck finds a surplus recovery block whose data, though correctly
+// checksummed, is inconsistent) leaves the same state behind for every value of the goroutine option.
+func checkBadSurplus(c Case) string {
+	dir := run.Scratch("c12")
+	defer os.RemoveAll(dir)
+	s := c.Seed | 1
+	files := map[string][]byte{}
+	for i := 0; i < 3; i++ {
+		b := make([]byte, 40+int(xs(&s)%90))
+		for k := range b {
+			b[k] = byte(xs(&s) >> 11)
+		}
+		files[fmt.Sprintf("f%d.dat", i)] = b
+	}
+	const slice = 64
+	state := func(g int) (map[string][]byte, string, string) {
+		d := filepath.Join(dir, fmt.Sprintf("g%d", g))
+		fsx.WriteTree(d, files)
+		var names []string
+		for n := range files {
+			names = append(names, filepath.Join(d, n))
+		}
+		sort.Strings(names)
+		if err := par2.Create(filepath.Join(d, "set.par2"), names, par2.CreateOptions{SliceByteCount: slice, NumParityShards: 4, NumGoroutines: 1}); err != nil {
+			return nil, "", "Create failed: " + err.Error()
+		}
+		// the recovery block with the highest exponent gets other data under a valid packet checksum
+		vols, _ := filepath.Glob(filepath.Join(d, "set.vol*.par2"))
+		sort.Strings(vols)
+		last := vols[len(vols)-1]
+		raw, _ := os.ReadFile(last)
+		ps, err := par2ref.ScanStrict(raw)
+		if err != nil {
+			return nil, "", "harness: " + err.Error()
+		}
+		var out []byte
+		maxExp, at := uint32(0), -1
+		for i, p := range ps {
+			if p.Type == par2ref.TypeRecvSlic {
+				if e, _, _ := par2ref.ParseRecovery(p.Body); at < 0 || e >= maxExp {
+					maxExp, at = e, i
+				}
+			}
+		}
+		for i, p := range ps {
+			body := append([]byte{}, p.Body...)
+			if i == at {
+				body[len(body)-3] ^= 0x40
+			}
+			out = append(out, par2ref.Packet{SetID: p.SetID, Type: p.Type, Body: body}.Encode()...)
+		}
+		os.WriteFile(last, out, 0o644)
+		os.Remove(filepath.Join(d, "f1.dat"))
+		var rerr error
+		if p, msg := run.Safe(func() {
+			_, rerr = par2.Repair(filepath.Join(d, "set.par2"), par2.RepairOptions{NumGoroutines: g, DoubleCheck: true})
+		}); p {
+			return nil, "", "Repair panicked: " + msg
+		}
+		snap, _ := fsx.Take(d)
+		es := "nil"
+		if rerr != nil {
+			es = "error"
+		}
+		return snap.Files(), es, ""
+	}
+	base, berr, msg := state(1)
+	if msg != "" {
+		return msg
+	}
+	got, gerr, msg := state(c.G)
+	if msg != "" {
+		return msg
+	}
+	if berr != gerr {
+		return fmt.Sprintf("Repair with DoubleCheck and an inconsistent surplus recovery block: %s with 1 goroutine, %s with %d", berr, gerr, c.G)
+	}
+	if len(base) != len(got) {
+		return fmt.Sprintf("Repair with DoubleCheck and an inconsistent surplus recovery block left %d files behind with 1 goroutine and %d with %d goroutines", len(base), len(got), c.G)
+	}
+	for n, b := range base {
+		if !bytes.Equal(got[n], b) {
+			return fmt.Sprintf("Repair with DoubleCheck and an inconsistent surplus recovery block: %q differs afterwards between 1 and %d goroutines", n, c.G)
 		}
 	}
 	return ""
@@ -520,6 +622,28 @@ func TestCheck(t *testing.T) {
 			do(Case{Op: "rec", Coder: "cauchy", D: 4, P: 3, Len: l, G: g, Procs: procs[idx%len(procs)], MissD: []int{1, 3}, Seed: uint64(idx)})
 		}
 	}
+	// input shards at odd addresses
+	for _, l := range []int{96, 4098, 65536*3 + 32, 1 << 20} {
+		for _, g := range []int{2, 3, 8, 64} {
+			idx++
+			if !cfg.Mine(idx) {
+				continue
+			}
+			rec.Class("input-shards-at-odd-addresses")
+			do(Case{Op: "gen", Coder: "vand", D: 3, P: 2, Len: l, G: g, Procs: procs[idx%len(procs)], Odd: true, Seed: uint64(idx)})
+			do(Case{Op: "rec", Coder: "cauchy", D: 4, P: 3, Len: l, G: g, Procs: procs[idx%len(procs)], Odd: true, MissD: []int{0, 2}, Seed: uint64(idx)})
+		}
+	}
+	// goroutine counts up to the largest int
+	for gi, g := range []int{1<<31 - 1, 1 << 31, 1 << 45, 1 << 59, 1<<63 - 1} {
+		idx++
+		if !cfg.Mine(idx) {
+			continue
+		}
+		rec.Class("huge-goroutine-count")
+		do(Case{Op: "gen", Coder: "cauchy", D: 2, P: 2, Len: 4096 + 2*gi, G: g, Procs: 4, Seed: uint64(idx)})
+		do(Case{Op: "rec", Coder: "vand", D: 3, P: 2, Len: 130, G: g, Procs: 2, MissD: []int{1}, Seed: uint64(idx)})
+	}
 	// long shards, repeated many times: schedule-dependent failures in the hand-out of work (blocks claimed twice / past the end)
 	for gi, g := range []int{2, 3, 4, 8, 16} {
 		// two 64 KiB blocks and a bit per goroutine, not a multiple of 64 KiB; many workers finishing at about the same time
@@ -581,6 +705,13 @@ func TestCheck(t *testing.T) {
 		}
 	}
 	do(Case{Op: "api", D: 2, P: 3, Len: 64, G: 64, Seed: uint64(cfg.Shard)})
+	for _, g := range []int{2, 3, 4, 16} {
+		idx++
+		if cfg.Mine(idx) {
+			rec.Class("failing-doublecheck-repair")
+			do(Case{Op: "api", Coder: "badsurplus", G: g, Seed: uint64(idx)})
+		}
+	}
 	// the default goroutine count (option 0) for every GOMAXPROCS value and reported CPU topology
 	for _, pr := range []int{1, 2, 3, 4, 16} {
 		for _, topo := range [][]int{nil, {1, 1}, {1, 2}, {2, 2}, {8, 2}, {4, 1}, {16, 1}, {3, 4}} {
